@@ -567,6 +567,19 @@ impl Expr {
         }
     }
 
+    /// does the expression read a column (of this or the enclosing query)?
+    pub fn has_col(&self) -> bool {
+        let mut s = std::collections::BTreeSet::new();
+        self.constructs(&mut s);
+        s.contains("col") || s.contains("outer-ref")
+    }
+
+    pub fn has_outer(&self) -> bool {
+        let mut s = std::collections::BTreeSet::new();
+        self.constructs(&mut s);
+        s.contains("outer-ref")
+    }
+
     pub fn has_div(&self) -> bool {
         let mut s = std::collections::BTreeSet::new();
         self.constructs(&mut s);
@@ -1169,7 +1182,7 @@ pub fn gen_db(rng: &mut Rng, max_rows: u64) -> Vec<TableDef> {
 }
 
 pub fn fill_rows(rng: &mut Rng, t: &mut TableDef, max_rows: u64) {
-    let nr = if rng.chance(1, 12) { 0 } else { rng.below(max_rows + 1) as usize };
+    let nr = if rng.chance(1, 20) { 0 } else { 2 + rng.below(max_rows - 1) as usize };
     let null_pct = *rng.pick(&[0u64, 10, 25, 50]);
     let small = rng.chance(1, 2);
     t.rows.clear();
@@ -1215,7 +1228,14 @@ impl<'a> ExprGen<'a> {
             }
             t => gen_val(rng, t, 10),
         };
-        Expr::Lit(v, ty, rng.chance(1, 3))
+        Expr::Lit(v, ty, false)
+    }
+    /// a literal for a position where SQL users write a bare `NULL` (IN lists, CASE results)
+    pub fn lit_maybe_bare(&self, rng: &mut Rng, ty: Ty) -> Expr {
+        match self.lit(rng, ty) {
+            Expr::Lit(Val::Null, t, _) => Expr::Lit(Val::Null, t, rng.chance(1, 2)),
+            e => e,
+        }
     }
     pub fn leaf(&self, rng: &mut Rng, ty: Ty) -> Expr {
         let cs = self.cols_of(ty);
@@ -1285,9 +1305,12 @@ impl<'a> ExprGen<'a> {
                     let op = *rng.pick(&[Op::Add, Op::Add, Op::Sub, Op::Sub, Op::Mul, Op::Mul, Op::Div, Op::Mod]);
                     let l = self.expr(rng, ty, d - 1);
                     let r = if matches!(op, Op::Div | Op::Mod) {
-                        if rng.below(100) < self.err_pct {
-                            self.expr(rng, ty, d - 1)
-                        } else if rng.chance(1, 2) {
+                        // a divisor that can fail must read a column (a constant failing expression
+                        // is folded / evaluated by the engine even over zero rows)
+                        let risky = if rng.below(100) < self.err_pct { Some(self.expr(rng, ty, d - 1)) } else { None };
+                        if let Some(r) = risky.filter(|r| r.has_col()) {
+                            r
+                        } else if self.err_pct > 0 && rng.chance(1, 2) && l.has_col() {
                             // guarded divisor
                             Expr::Nullif(b(self.expr(rng, ty, d - 1)), b(Expr::Lit(Val::Int(w, 0), ty, false)))
                         } else {
@@ -1310,14 +1333,15 @@ impl<'a> ExprGen<'a> {
                         Expr::Cast { ty, try_: rng.chance(1, 4), implicit: false, e: b(e) }
                     } else {
                         // narrowing: errors when out of range unless TRY_CAST
-                        let try_ = rng.below(100) >= self.err_pct;
+                        let try_ = rng.below(100) >= self.err_pct || !e.has_col();
                         Expr::Cast { ty, try_, implicit: false, e: b(e) }
                     }
                 }
                 7 => {
                     // string → integer
-                    let try_ = rng.below(100) >= self.err_pct;
-                    Expr::Cast { ty, try_, implicit: false, e: b(self.expr(rng, Ty::Str, d - 1)) }
+                    let e = self.expr(rng, Ty::Str, d - 1);
+                    let try_ = rng.below(100) >= self.err_pct || !e.has_col();
+                    Expr::Cast { ty, try_, implicit: false, e: b(e) }
                 }
                 8 => Expr::Cast { ty, try_: false, implicit: false, e: b(self.expr(rng, Ty::Bool, d - 1)) },
                 _ => self.leaf(rng, ty),
@@ -1345,7 +1369,7 @@ impl<'a> ExprGen<'a> {
                     let t = if rng.chance(2, 3) { Ty::Int(64) } else { self.any_ty(rng) };
                     let n = 1 + rng.below(4) as usize;
                     let x = self.expr(rng, t, d - 1);
-                    let list = (0..n).map(|_| if rng.chance(3, 4) { self.lit(rng, t) } else { self.expr(rng, t, d - 1) }).collect();
+                    let list = (0..n).map(|_| if rng.chance(3, 4) { self.lit_maybe_bare(rng, t) } else { self.expr(rng, t, d - 1) }).collect();
                     Expr::In(rng.chance(1, 2), b(x), list)
                 }
                 13 => {
@@ -1455,7 +1479,7 @@ pub fn partitions_of(rng: &mut Rng, t: &TableDef) -> Vec<Vec<RecordBatch>> {
 
 /// one cell of an engine result as a model value; `None` = a type outside the model
 pub fn cell(a: &dyn Array, i: usize) -> Option<Val> {
-    if a.is_null(i) {
+    if a.data_type() == &DataType::Null || a.is_null(i) {
         return Some(Val::Null);
     }
     Some(match a.data_type() {
@@ -1601,9 +1625,13 @@ impl<'a> QueryGen<'a> {
                 }
             }
         }
+        // kind of sub-query expression, chosen first: a correlated scalar aggregate is decorrelated
+        // by the engine only for equality correlations ("Physical plan does not support logical
+        // expression ScalarSubquery" otherwise), so those get `=` only
+        let kind_pick = rng.below(10);
         let corr = if !pairs.is_empty() && rng.chance(3, 4) {
             let (i, j) = *rng.pick(&pairs);
-            let op = if rng.chance(4, 5) { Op::Eq } else { *rng.pick(&[Op::Lt, Op::Ne, Op::Ge]) };
+            let op = if rng.chance(4, 5) || matches!(kind_pick, 6 | 7) { Op::Eq } else { *rng.pick(&[Op::Lt, Op::Ne, Op::Ge]) };
             Some(Expr::bin(op, Expr::Col(i), Expr::Outer(j)))
         } else {
             None
@@ -1615,7 +1643,7 @@ impl<'a> QueryGen<'a> {
             _ => None,
         };
         let outer_gen = ExprGen { cols: outer, outer: &[], err_pct: 0, allow_like: false };
-        match rng.below(10) {
+        match kind_pick {
             0..=2 => {
                 let sel = Select { from: inner_from, where_, group: None, proj: vec![(Expr::i64(1), Ty::Int(64))], distinct: false };
                 Expr::Sub { kind: SubKind::Exists, neg: rng.chance(1, 2), x: None, q: Box::new(Query::select(sel)) }
@@ -1627,8 +1655,12 @@ impl<'a> QueryGen<'a> {
                     (i, isc[i].ty)
                 };
                 let x = outer_gen.expr(rng, ty, 1);
+                // the engine refuses a correlated NOT IN ("null_aware anti join only supports single
+                // column join key"): NOT IN is generated uncorrelated only
+                let correlated = matches!(&where_, Some(w) if w.has_outer());
+                let neg = !correlated && rng.chance(1, 2);
                 let sel = Select { from: inner_from, where_, group: None, proj: vec![(Expr::Col(ci), ty)], distinct: false };
-                Expr::Sub { kind: SubKind::In, neg: rng.chance(1, 2), x: Some(Box::new(x)), q: Box::new(Query::select(sel)) }
+                Expr::Sub { kind: SubKind::In, neg, x: Some(Box::new(x)), q: Box::new(Query::select(sel)) }
             }
             6 | 7 => {
                 // x op (SELECT agg(col) …)   — a global aggregate always yields exactly one row
@@ -1669,6 +1701,8 @@ impl<'a> QueryGen<'a> {
                     0 | 1 => s,
                     2 | 3 => Expr::and(p, s),
                     4 => Expr::bin(Op::Or, p, s),
+                    // NOT (x IN (correlated sub-query)) is the refused correlated NOT IN again
+                    _ if matches!(&s, Expr::Sub { kind: SubKind::In, .. }) => s,
                     _ => Expr::Not(Box::new(s)),
                 })
             } else {
@@ -1723,8 +1757,10 @@ impl<'a> QueryGen<'a> {
             let post = tmp.post_scope(&from_sc);
             let pg = ExprGen { cols: &post.cols, outer: &[], err_pct: 0, allow_like: false };
             let mut proj = vec![];
+            let global = tmp.group.as_ref().map(|g| g.keys.is_empty()).unwrap_or(false);
             for (i, c) in post.cols.iter().enumerate() {
-                if rng.chance(4, 5) {
+                // a query without GROUP BY is an aggregate query only through its select list
+                if global || rng.chance(4, 5) {
                     proj.push((Expr::Col(i), c.ty));
                 }
             }
